@@ -126,6 +126,9 @@ type Sched struct {
 	// StragglerHold: the straggler additionally waits until this many more external actions have been performed
 	// (a request that arrives while one partition's worker has still not looked at its replayed item)
 	StragglerHold int
+	// ParkAt, when set, is consumed by the next matching task (see ParkSpec); Parked counts how often that happened
+	ParkAt *ParkSpec
+	Parked int
 	// DeferInterrupted: the straggler is the very item whose reconcile the crash interrupted
 	DeferInterrupted bool
 	interrupted      StepCtx
@@ -482,7 +485,48 @@ func (s *Sched) eligible(it *item) bool {
 	return it.errs <= s.MaxIdleRetries
 }
 
+// hasDeferred reports whether a step or work item is being held back (the system is then not idle).
+func (s *Sched) hasDeferred() bool {
+	for _, c := range s.ctls {
+		for _, sl := range c.slots {
+			if sl.inflight != nil && sl.inflight.deferred {
+				return true
+			}
+			for _, it := range sl.pending {
+				if it.deferred {
+					return true
+				}
+			}
+		}
+	}
+	return false
+}
+
+// ParkSpec arms the parking of a task: the next task of controller Ctl that is about to perform store call Op
+// (pre-emptive mode) stays parked until Hold more external actions have been performed and nothing else can run.
+type ParkSpec struct {
+	Ctl, Op string
+	Hold    int
+}
+
 func (s *Sched) candidates() []cand {
+	if pa := s.ParkAt; pa != nil {
+		for _, c := range s.ctls {
+			if c.name != pa.Ctl {
+				continue
+			}
+			for _, sl := range c.slots {
+				if t := sl.inflight; t != nil && t.atOp == pa.Op && !t.deferred && s.ParkAt != nil {
+					t.deferred = true
+					s.deferredSince = max(1, s.Steps)
+					s.HoldExternals = pa.Hold
+					s.x.Logf("  (the %s step of %s is held back before its %s)", c.name, s.idStr(t.it.id), t.atOp)
+					s.Parked++
+					s.ParkAt = nil
+				}
+			}
+		}
+	}
 	var tasks, items []cand
 	for _, c := range s.ctls {
 		for _, p := range c.order {
@@ -643,7 +687,7 @@ func (s *Sched) Run() error {
 			continue
 		}
 		cands := s.candidates()
-		if len(cands) == 0 && s.OnQuiescent != nil {
+		if len(cands) == 0 && s.OnQuiescent != nil && !s.hasDeferred() {
 			if err := s.OnQuiescent(); err != nil {
 				return err
 			}
